@@ -121,7 +121,7 @@ PROPS['C06'] = dict(
 PROPS['C16'] = dict(
     bounded_quick=[('history', 'whole-history behaviour under different open options: the tree layer (split / merge thresholds depend on the page size) is outside the verifier\'s reach; cex/history.rs replays seeded histories under page sizes 1024/1032/3000/4096/16384, 4 or 64 initial pages, strict mode off/on')],
     level='proof',
-    units=['open', 'freelist', 'commit', 'split'],
+    units=['open', 'freelist', 'commit', 'split', 'check'],
     kani_quick=['frombuf'],
     explanation='Open options: for EVERY page size and page count the builder accepts. OpenOptions::pagesize returns only for sizes >= 1024 that are multiples of 8 (the '
                 'documented panics are modelled as divergence, so removing a check is a failed postcondition), num_pages only for >= 4; OpenOptions::open calls init_file / DBInner::open '
@@ -132,7 +132,7 @@ PROPS['C16'] = dict(
     level_text='Arithmetic, alignment and ordering obligations proved for all configurations on the real code; no enumeration of sizes.',
     level_note='Whole-history equivalence across configurations is not decided (tree layer). mmap_populate reaches only the mmap stub. check() completeness w.r.t. well-formedness is not under contract.',
     assumptions=[A_TOOLS, A_ARITH, A_FILE, A_VIEWS, A_PAGEMUT, A_SEQ, 'OS page sizes are multiples of 8 (Default for OpenOptions)', 'fs4 allocate / memmap2 map: the map covers every allocated byte (prelude/openfile.rs)'],
-    not_covered=['equality of return values and logical contents of whole histories across configurations', 'that strict mode never rejects a valid commit (needs completeness of TxInner::check)', 'the VALUE of the split threshold (float arithmetic, stub U22): Node::split is proved for ANY threshold, so no property depends on it'],
+    not_covered=['equality of return values and logical contents of whole histories across configurations', 'that strict mode never rejects a valid commit (needs COMPLETENESS of TxInner::check; unit check proves its soundness: Ok only if every page is accounted for exactly once)', 'the VALUE of the split threshold (float arithmetic, stub U22): Node::split is proved for ANY threshold, so no property depends on it'],
 )
 
 PROPS['C08'] = dict(
@@ -180,7 +180,7 @@ PROPS['C05'] = dict(
     bounded_quick=[('history', 'Node::spill and InnerBucket::merge_nodes / node (an Rc<RefCell<Node>> graph mutated through shared handles: outside both verifiers), Page::write_node (raw-pointer serialisation) beyond the bounded Kani codec; Node::split / write / free_page / NodeData::merge and InnerBucket::{rebalance, spill, page_node} ARE under contract (units split, nodeio, bucketcommit, overlay)')],
     level='proof',
     composition='the accounting part of INV (pending pages below the high-water mark, not free, pending once; live pages not free) is preserved by begin/end reader and commit: Verus lemma L2 (contracts/lemmas.vtmpl) under assumptions A1/A2',
-    units=['freelist', 'commit', 'open', 'pagenode', 'lemmas', 'bucketops', 'nodeio', 'split', 'bucketcommit'],
+    units=['freelist', 'commit', 'open', 'pagenode', 'lemmas', 'bucketops', 'nodeio', 'split', 'bucketcommit', 'check'],
     kani_quick=['layout'],
     kani_thorough=['codec'],
     explanation='Page accounting, allocator and serialisation side (the tree-shape half is outside): the allocator never hands out a page that is pending, already allocated in this transaction or a header page, '
@@ -196,7 +196,7 @@ PROPS['C05'] = dict(
     level_note='The nested-bucket double free named in the property text (E10, repaired) is now a step obligation of InnerBucket::delete_bucket (a nested root queued for freeing is not already freed by this transaction). NOT decided: that Node::spill / merge_nodes (assumed interface of unit bucketcommit) free each page at most once, key order across pages, separator bounds, '
                'reachability-exactly-once, and agreement of TxInner::check (a worklist graph traversal, not under contract). L3 composition on paper; fl_nodup is an assumption.',
     assumptions=[A_TOOLS, A_ARITH, A_TREE, A_FILE, A_PAGEMUT, A_ELEMS, A_SEQ],
-    not_covered=['duplicated or leaked pages caused by rebalance / merge / spill (bounded: cex/history.rs + DB::check after every commit; reproductions e9, e11)', 'key order across pages and separator bounds (E11 lived here; bounded only)', 'TxInner::check agreement'],
+    not_covered=['duplicated or leaked pages caused by Node::spill / merge_nodes (bounded: cex/history.rs + the VERIFIED DB::check after every commit; reproductions e9, e11)', 'key order across pages and separator bounds (E11 lived here; bounded only: TxInner::check looks at each page on its own)', 'completeness of TxInner::check (that it accepts every well-formed file); its soundness is proved in unit check'],
 )
 PROPS['C01'] = dict(
     bounded_quick=[('history', 'Node::spill and InnerBucket::merge_nodes / node (an Rc<RefCell<Node>> graph mutated through shared handles: outside both verifiers), Page::write_node (raw-pointer serialisation) beyond the bounded Kani codec; Node::split / write / free_page / NodeData::merge and InnerBucket::{rebalance, spill, page_node} ARE under contract (units split, nodeio, bucketcommit, overlay)'), ('cursor', 'Node::spill and InnerBucket::merge_nodes / node (an Rc<RefCell<Node>> graph mutated through shared handles: outside both verifiers), Page::write_node (raw-pointer serialisation) beyond the bounded Kani codec; Node::split / write / free_page / NodeData::merge and InnerBucket::{rebalance, spill, page_node} ARE under contract (units split, nodeio, bucketcommit, overlay)')],
